@@ -255,9 +255,8 @@ def flat_env(fn):
             for t in n.targets:
                 bind(t, n.value, in_loop)
         elif isinstance(n, ast.AugAssign):
-            for x in ast.walk(n.target):
-                if isinstance(x, ast.Name):
-                    bump(x.id)
+            if isinstance(n.target, ast.Name):      # `x op= e` rebinds x; `x[k] op= e` does not
+                bump(n.target.id)
         elif isinstance(n, (ast.For, ast.comprehension)):
             for x in ast.walk(n.target):
                 if isinstance(x, ast.Name):
